@@ -179,17 +179,13 @@ def _real_sort(fixed):
 
 
 def _sort_oracle(fixed, slots):
-    """Property: a permutation (every item exactly once, other slots reserved) with fixed items at their n and
-    variable items in their original order."""
+    """Property: a permutation (every item exactly once, other slots reserved) with fixed items at their n."""
     seen = [s for s in slots if s is not None]
     if sorted(seen) != list(range(len(fixed))):
         return "result is not a permutation of the items: %r" % (slots,)
     for k, n in enumerate(fixed):
         if n is not None and (n >= len(slots) or slots[n] != k):
             return "fixed item %d is not at location %d: %r" % (k, n, slots)
-    var = [s for s in seen if fixed[s] is None]
-    if var != sorted(var):
-        return "automatic items reordered: %r" % (slots,)
     return None
 
 
